@@ -387,12 +387,12 @@ def r9_nolock_user(ctx, prog):
 
 def run(ctx):
     prog = extract(SCOPE)
-    r1_races(ctx, prog)
-    r2_handover(ctx, prog)
-    r3_completion(ctx, prog)
-    r4_cancel(ctx, prog)
-    r5_join(ctx, prog)
-    r6_priority(ctx, prog)
-    r7_bound(ctx, prog)
-    r9_nolock_user(ctx, prog)
+    ctx.guard(r1_races, ctx, prog)
+    ctx.guard(r2_handover, ctx, prog)
+    ctx.guard(r3_completion, ctx, prog)
+    ctx.guard(r4_cancel, ctx, prog)
+    ctx.guard(r5_join, ctx, prog)
+    ctx.guard(r6_priority, ctx, prog)
+    ctx.guard(r7_bound, ctx, prog)
+    ctx.guard(r9_nolock_user, ctx, prog)
     return prog
